@@ -43,6 +43,12 @@ def place(rng, n, lmax, tol):
             c = list(np.array(ref.center) + d * u)
         # atom labels as concatenated make_contractions fragments produce them: numbered from 0 in every fragment, so that shells on
         # different centres can carry the same `icenter` (the label is bookkeeping; only the distance decides the screening)
+        if len(s.exps) >= 2 and (i + n) % 3 == 0:
+            # zero-padded contraction tables: the primitive with the smallest exponent has coefficient 0 in every column
+            co = s.coeffs.copy()
+            co[int(np.argmin(s.exps)), :] = 0.0
+            if np.all(np.any(co != 0, axis=0)):        # every contraction must keep a non-zero coefficient
+                s = s.copy(coeffs=co)
         ic = None if n % 2 else (i % 2 if i else 0)
         specs.append(s.copy(center=[float(x) for x in c], icenter=ic))
     return specs
